@@ -22,15 +22,16 @@
         (what base classes use) and link_to reach the moved object.  No hypothesis about the state: the alias map of the
         consumer is proved to be the syntactic one whenever the move happens (Proofs/ProjectMove.v, Section Consumer).
         C07_reach_hypotheses_satisfiable: the hypotheses hold for a concrete project.
-     C07_find_object_old_name_partial -- PARTIAL (state level): on any state in which the moved object is registered as
-        k1 and the root module D keeps the alias x -> k1 (what C07_moved_once establishes), System.find_object with the
-        old qualified name returns it; the shape of `roots` in the final state is a hypothesis, not proved.
+        C07_reach_via_reexporter_star, C07_reach_via_module_alias_star: the same for the star-import form.
+     C07_find_object_old_name -- same hypotheses, D a top-level module: System.find_object with the old qualified name
+        D.x returns the moved object in the final state of every schedule (the old name is not registered any more; the
+        fallback through the root module and the alias the move left there finds it).
    REFUTED on the faithful model (known finding C07-stale-defining-module-name):
      C07_reach_via_defining_module_refuted -- `from D import x` in a consumer: the name, a base class, link_to are
         unresolved under every schedule.
    NOT PROVED (sampled by the correspondence check + oracle only): a defining module that itself has imports (no
-   cycle with R), several re-exports in one project (incl. a star import that moves several names), consumers of a
-   star-form re-export (the reach theorems are stated for the by-name form). *)
+   cycle with R), several re-exports in one project (incl. a star import that moves several names), consumers that
+   are classes' own scopes or that use star imports / assignment aliases themselves. *)
 From Coq Require Import ZArith NArith List Bool Permutation.
 From PydoctorVerif Require Import Base.Sexp Model.Project Model.Linker Spec.ProjectStatic
      Proofs.ProjectBase Proofs.ProjectRegistry Proofs.ProjectStaticCheck Proofs.ProjectMove Proofs.LinkerProofs
@@ -194,8 +195,10 @@ Theorem C07_reach_via_reexporter :
 Proof.
   intros p R D ix xname n miR miD spre spost lvl mn npre npost C miC a Hwf H0 H1 HRD Hix Hxd Hxn HRm HRs Ho1 Ho2 Hexp Hres HDm HDl HDa
          Honly HCm HCR HCD HCp Ha Hnd Hns sigma Hperm.
-  exact (reach_via_reexporter p R D ix xname n Hwf H0 H1 HRD Hix Hxd Hxn miR miD spre spost lvl mn npre npost HRm HRs Ho1 Ho2 Hexp Hres
-                              HDm HDl HDa Honly C miC HCm HCR HCD HCp a Ha Hnd Hns sigma Hperm).
+  exact (reach_via_reexporter p R D ix xname n Hwf H0 HRD Hix Hxd Hxn miR miD HRm HDm C miC HCm HCR
+           (ProjectMove.moved_final p R D ix xname n Hwf H0 H1 HRD Hix Hxd Hxn miR miD spre spost lvl mn npre npost HRm HRs Ho1 Ho2 Hexp
+                                    Hres HDm HDl HDa Honly C miC HCm HCR HCD HCp)
+           a Ha Hnd Hns sigma Hperm).
 Qed.
 
 (* A consumer module C whose import statements bind the name d to the defining module D itself (`import D as d`,
@@ -235,21 +238,134 @@ Theorem C07_reach_via_module_alias :
 Proof.
   intros p R D ix xname n miR miD spre spost lvl mn npre npost C miC d Hwf H0 H1 HRD Hix Hxd Hxn HRm HRs Ho1 Ho2 Hexp Hres HDm HDl HDa
          Honly HCm HCR HCD HCp Ha Hnd Hns sigma Hperm.
-  exact (reach_via_module_alias p R D ix xname n Hwf H0 H1 HRD Hix Hxd Hxn miR miD spre spost lvl mn npre npost HRm HRs Ho1 Ho2 Hexp Hres
-                                HDm HDl HDa Honly C miC HCm HCR HCD HCp d Ha Hnd Hns sigma Hperm).
+  exact (reach_via_module_alias p R D ix xname n Hwf H0 HRD Hix Hxd Hxn miR miD HRm HDm C miC HCm HCR
+           (ProjectMove.moved_final p R D ix xname n Hwf H0 H1 HRD Hix Hxd Hxn miR miD spre spost lvl mn npre npost HRm HRs Ho1 Ho2 Hexp
+                                    Hres HDm HDl HDa Honly C miC HCm HCR HCD HCp)
+           d Ha Hnd Hns sigma Hperm).
 Qed.
 
-(* System.find_object with the outdated qualified name h.x of an object moved out of the root module h. *)
-Theorem C07_find_object_old_name_partial :
-  forall (s : state) (h : N) (Dm : oid) (db : obj) (x : N) (k1 : path) (xo : oid),
-    dfuel s <> 0%nat -> pget [h; x] (allobjs s) = None ->
-    find (fun r => match objs s r with Some rb => N.eqb (o_name rb) h | None => false end) (roots s) = Some Dm ->
-    objs s Dm = Some db -> is_module_tag (o_tag db) = true ->
-    nget x (o_contents db) = None -> nget x (o_alias db) = Some k1 -> pget k1 (allobjs s) = Some xo ->
-    find_object s [h; x] = (1, Some xo).
-Proof. exact find_object_old_root. Qed.
+(* The same two statements for the star-import form of the re-export (hypotheses of C07_moved_once_star). *)
+Theorem C07_reach_via_reexporter_star :
+  forall (p : project) (R D ix xname : N) (miR miD : modinfo) (spre spost : list stmt) (lvl : N) (mn : path)
+         (C : N) (miC : modinfo) (a : N),
+    (* the hypotheses of C07_moved_once_star *)
+    parents_first p -> keys_distinct p ->
+    (forall o o', sobj p o <> None -> sobj p o' <> None ->
+                  moved_key p R D ix xname o = moved_key p R D ix xname o' -> o = o') ->
+    R <> D -> ix <> 0 -> sobj p (D, ix, 0) <> None -> sname p (D, ix, 0) = xname ->
+    modinfo_of p R = Some miR ->
+    m_stmts miR = spre ++ SImportStar lvl mn :: spost ->
+    (forall lv m', ~ In (SImportStar lv m') (spre ++ spost)) ->
+    In xname (exports_of_mod miR) ->
+    (forall a, In a (exports_of_mod miR) -> In a (def_names miD) \/ In a (submodule_names p D) -> a = xname) ->
+    static_modname p R lvl mn = Some (skey p (D, 0, 0)) ->
+    modinfo_of p D = Some miD ->
+    (forall st, In st (m_stmts miD) -> match st with SClass _ _ _ _ | SFunc _ _ | SVar _ _ => True | _ => False end) ->
+    is_private_name xname = false ->
+    (forall m mi st, modinfo_of p m = Some mi -> In st (m_stmts mi) ->
+       match st with
+       | SImportFrom _ _ nms => forall oa, In oa nms -> ~ In (snd oa) (exports_of_mod mi)
+       | SImportStar _ _ => exports_of_mod mi = [] \/ m = R
+       | _ => True
+       end) ->
+    (* the consumer: a third module without star imports and assignment aliases *)
+    modinfo_of p C = Some miC -> C <> R -> C <> D ->
+    (forall st, In st (m_stmts miC) -> plain_stmt st = true) ->
+    nget a (static_alias p C) = Some (skey p (R, 0, 0) ++ [xname]) ->
+    ~ In a (def_names miC) -> ~ In a (submodule_names p C) ->
+    forall sigma, Permutation sigma (module_ids p) ->
+    exists s, run_state p sigma = Ok s /\
+              expand_name s (C, 0, 0) [a] = moved_key p R D ix xname (D, ix, 0) /\
+              resolve_name s (C, 0, 0) [a] = Some (D, ix, 0) /\ link_to s (C, 0, 0) [a] = Some (D, ix, 0).
+Proof.
+  intros p R D ix xname miR miD spre spost lvl mn C miC a Hwf H0 H1 HRD Hix Hxd Hxn HRm HRs Ho Hexp Honlyx Hres HDm HDd Hpub Honly
+         HCm HCR HCD HCp Ha Hnd Hns sigma Hperm.
+  assert (HDd' : forall st, In st (m_stmts miD) -> def_stmt st = true).
+  { intros st Hin. pose proof (HDd st Hin) as Hs. destruct st; try contradiction; reflexivity. }
+  exact (reach_via_reexporter p R D ix xname xname Hwf H0 HRD Hix Hxd Hxn miR miD HRm HDm C miC HCm HCR
+           (moved_final_star p R D ix xname Hwf H0 H1 HRD Hix Hxd Hxn miR miD spre spost lvl mn HRm HRs Ho Hexp Honlyx Hres HDm HDd' Hpub
+                             Honly C miC HCm HCR HCD HCp)
+           a Ha Hnd Hns sigma Hperm).
+Qed.
 
-(* the three statements above are about states that exist: the final state of the sibling re-export
+Theorem C07_reach_via_module_alias_star :
+  forall (p : project) (R D ix xname : N) (miR miD : modinfo) (spre spost : list stmt) (lvl : N) (mn : path)
+         (C : N) (miC : modinfo) (d : N),
+    (* the hypotheses of C07_moved_once_star *)
+    parents_first p -> keys_distinct p ->
+    (forall o o', sobj p o <> None -> sobj p o' <> None ->
+                  moved_key p R D ix xname o = moved_key p R D ix xname o' -> o = o') ->
+    R <> D -> ix <> 0 -> sobj p (D, ix, 0) <> None -> sname p (D, ix, 0) = xname ->
+    modinfo_of p R = Some miR ->
+    m_stmts miR = spre ++ SImportStar lvl mn :: spost ->
+    (forall lv m', ~ In (SImportStar lv m') (spre ++ spost)) ->
+    In xname (exports_of_mod miR) ->
+    (forall a, In a (exports_of_mod miR) -> In a (def_names miD) \/ In a (submodule_names p D) -> a = xname) ->
+    static_modname p R lvl mn = Some (skey p (D, 0, 0)) ->
+    modinfo_of p D = Some miD ->
+    (forall st, In st (m_stmts miD) -> match st with SClass _ _ _ _ | SFunc _ _ | SVar _ _ => True | _ => False end) ->
+    is_private_name xname = false ->
+    (forall m mi st, modinfo_of p m = Some mi -> In st (m_stmts mi) ->
+       match st with
+       | SImportFrom _ _ nms => forall oa, In oa nms -> ~ In (snd oa) (exports_of_mod mi)
+       | SImportStar _ _ => exports_of_mod mi = [] \/ m = R
+       | _ => True
+       end) ->
+    (* the consumer: a third module without star imports and assignment aliases *)
+    modinfo_of p C = Some miC -> C <> R -> C <> D ->
+    (forall st, In st (m_stmts miC) -> plain_stmt st = true) ->
+    nget d (static_alias p C) = Some (skey p (D, 0, 0)) ->
+    ~ In d (def_names miC) -> ~ In d (submodule_names p C) ->
+    forall sigma, Permutation sigma (module_ids p) ->
+    exists s, run_state p sigma = Ok s /\
+              expand_name s (C, 0, 0) [d; xname] = moved_key p R D ix xname (D, ix, 0) /\
+              resolve_name s (C, 0, 0) [d; xname] = Some (D, ix, 0) /\ link_to s (C, 0, 0) [d; xname] = Some (D, ix, 0).
+Proof.
+  intros p R D ix xname miR miD spre spost lvl mn C miC d Hwf H0 H1 HRD Hix Hxd Hxn HRm HRs Ho Hexp Honlyx Hres HDm HDd Hpub Honly
+         HCm HCR HCD HCp Ha Hnd Hns sigma Hperm.
+  assert (HDd' : forall st, In st (m_stmts miD) -> def_stmt st = true).
+  { intros st Hin. pose proof (HDd st Hin) as Hs. destruct st; try contradiction; reflexivity. }
+  exact (reach_via_module_alias p R D ix xname xname Hwf H0 HRD Hix Hxd Hxn miR miD HRm HDm C miC HCm HCR
+           (moved_final_star p R D ix xname Hwf H0 H1 HRD Hix Hxd Hxn miR miD spre spost lvl mn HRm HRs Ho Hexp Honlyx Hres HDm HDd' Hpub
+                             Honly C miC HCm HCR HCD HCp)
+           d Ha Hnd Hns sigma Hperm).
+Qed.
+
+(* System.find_object with the OUTDATED qualified name D.x of the object, D a top-level module: the old name is no
+   longer registered, find_object falls back to the root module D and expands the rest through the alias the move
+   left there -- it returns the moved object, in the final state of EVERY schedule. *)
+Theorem C07_find_object_old_name :
+  forall (p : project) (R D ix xname n : N) (miR miD : modinfo) (spre spost : list stmt) (lvl : N) (mn : path)
+         (npre npost : list (N * N)),
+    parents_first p -> keys_distinct p ->
+    (forall o o', sobj p o <> None -> sobj p o' <> None -> moved_key p R D ix n o = moved_key p R D ix n o' -> o = o') ->
+    R <> D -> ix <> 0 -> sobj p (D, ix, 0) <> None -> sname p (D, ix, 0) = xname ->
+    modinfo_of p R = Some miR ->
+    m_stmts miR = spre ++ SImportFrom lvl mn (npre ++ (xname, n) :: npost) :: spost ->
+    (forall oa, In oa (npre ++ npost) -> snd oa <> n) ->
+    (forall lv m' nms oa, In (SImportFrom lv m' nms) (spre ++ spost) -> In oa nms -> snd oa <> n) ->
+    In n (exports_of_mod miR) ->
+    static_modname p R lvl mn = Some (skey p (D, 0, 0)) ->
+    modinfo_of p D = Some miD ->
+    (forall st, In st (m_stmts miD) -> local_stmt st = true) ->
+    (forall a, last_all (m_stmts miD) None = Some a -> ~ In xname a) ->
+    (forall m mi st, modinfo_of p m = Some mi -> In st (m_stmts mi) ->
+       match st with
+       | SImportFrom _ _ nms => forall oa, In oa nms -> In (snd oa) (exports_of_mod mi) -> m = R /\ snd oa = n
+       | SImportStar _ _ => exports_of_mod mi = []
+       | _ => True
+       end) ->
+    m_parent miD = None ->
+    forall sigma, Permutation sigma (module_ids p) ->
+    exists s, run_state p sigma = Ok s /\ find_object s (skey p (D, ix, 0)) = (1, Some (D, ix, 0)).
+Proof.
+  intros p R D ix xname n miR miD spre spost lvl mn npre npost Hwf H0 H1 HRD Hix Hxd Hxn HRm HRs Ho1 Ho2 Hexp Hres HDm HDl HDa Honly
+         HDroot sigma Hperm.
+  exact (find_object_old_name p R D ix xname n Hwf H0 H1 HRD Hix Hxd Hxn miR miD spre spost lvl mn npre npost HRm HRs Ho1 Ho2 Hexp Hres
+                              HDm HDl HDa Honly HDroot sigma Hperm).
+Qed.
+
+(* the statements above are about states that exist: the final state of the sibling re-export
    _impl.py: class Foo      api.py: from _impl import Foo ; __all__ = ['Foo']
    user.py: from api import Foo ; import _impl as d ; class U1(Foo) ; class U2(d.Foo)
    names: Foo 1, _impl 2 (+ underscore bit), api 3, user 4, d 5, U1 6, U2 7 *)
